@@ -49,11 +49,13 @@ def useData (s : Stored) (clusters : Bool) : Data :=
 /-- `get_amplitudes_true(sample2unit=f, use=…)` on the stored arrays.  The real loop runs over
 `np.arange(n_wav)` on an array shaped like `sparse.data` and the counts use `minlength=n_wav`: with
 `n_wav ≠ len(sparse.data)` it raises (IndexError when larger, a broadcasting ValueError when smaller) — `none`
-here; `amplitudesTrueUse_defined` shows that this never happens. -/
+here; `amplitudesTrueUse_defined` shows that this never happens.  A spike whose id is `≥ n_wav` makes
+`templates_amps_au[spikes]` (model.py:1164) raise IndexError — `none` too (`amplitudesTrueUse_none`); it cannot
+happen on a dataset that loads (`assignment_lt_idCount`). -/
 def amplitudesTrueUse (s : Stored) (clusters : Bool) (f : Rat) :
     Option (List Rat × List (Option Mat) × List (Option Rat)) :=
   let a := useArrays s clusters
-  if a.1.length = a.2.2 then some (amplitudesTrue (useData s clusters) f) else none
+  if a.1.length = a.2.2 ∧ a.2.1.all (· < a.2.2) = true then some (amplitudesTrue (useData s clusters) f) else none
 
 /-- `templates_channels` / `clusters_channels` on the stored arrays -/
 def channelsUse (s : Stored) (clusters : Bool) : List Nat := peakChannels (useArrays s clusters).1
@@ -64,12 +66,13 @@ def durationsUse (s : Stored) (clusters : Bool) (rate : Rat) : List Rat :=
 
 /-- everything one id space reports, the arrays selected ONCE (what the driver evaluates): the selected
 `(waveforms, assignment, n_wav)`, the three return values of `get_amplitudes_true`, the peak channels and the
-durations in milliseconds.  `summariesUse_eq`: componentwise the definitions above. -/
+durations in milliseconds.  `summariesUse_unfold` (by `rfl`): componentwise the definitions above. -/
 def summariesUse (s : Stored) (clusters : Bool) (f rate : Rat) :
     (List Mat × List Nat × Nat) × Option (List Rat × List (Option Mat) × List (Option Rat)) × List Nat × List Rat :=
   let a := useArrays s clusters
   let d : Data := ⟨a.1, s.wmi, s.amplitudes, a.2.1⟩
-  (a, (if a.1.length = a.2.2 then some (amplitudesTrue d f) else none), peakChannels a.1, waveformDurations a.1 rate)
+  (a, (if a.1.length = a.2.2 ∧ a.2.1.all (· < a.2.2) = true then some (amplitudesTrue d f) else none),
+   peakChannels a.1, waveformDurations a.1 rate)
 
 /-- `templates_probes` (model.py:1302-1304): `channel_probes[templates_channels]`.  A peak channel beyond the
 probe table raises IndexError in the real code (cannot happen: the table has one entry per channel). -/
